@@ -918,6 +918,9 @@ def gen_constraint_case(rng, tier, variant, sub):
         flip = rng.random(size=k) < 0.3
         vals = np.where(flip, -vals, vals)
         vals = np.where(np.abs(vals) < 1e-3, -0.1, vals)
+        if rng.random() < 0.7:
+            # values of both signs within one constraint: the sign pattern is what the relative forms have to carry over
+            vals[0], vals[1] = -abs(vals[0]), abs(vals[1])
         cor = rand_cor(rng, k)
         a = {"names": [names[i] for i in idx], "values": rl(vals)}
         feats = {"negative_value": bool(np.any(vals < 0)), "mixed_sign_values": bool(np.any(vals < 0) and np.any(vals > 0))}
